@@ -339,6 +339,12 @@ func run(c Case) (fail string, hol, grewWrapped bool) {
 				return where + ": " + err.Error(), m.hol, m.grewWrapped
 			}
 			tg := &cbTag{serial}
+			if pm, isPub := msg.(*message.PublishMessage); isPub && m.find(op.ID) != nil && serial%3 != 0 {
+				// a retransmission of a request that is still in flight (DUP set) changes
+				// nothing: the entry keeps its bytes, its callback and the state its
+				// acknowledgements gave it
+				pm.SetDup(true)
+			}
 			if err := q.Wait(msg, tg); err != nil {
 				return where + ": Wait returned error: " + err.Error(), m.hol, m.grewWrapped
 			}
